@@ -38,6 +38,12 @@ type ServerCfg struct {
 	// depend on whether a later option replaces or extends an earlier one.
 	Params2 map[string]string `json:"params2,omitempty"`
 	Version string            `json:"version,omitempty"`
+	// ExtendReal: the ExtendTypes options really change the type map (text and
+	// varchar handled by the bytea codec, timestamp by the timestamptz codec,
+	// numeric by the text codec, a new type under OID 90001) instead of being
+	// no-ops. Used by decoy cases whose own session touches none of these types:
+	// what one server registers must never show on another server's connections.
+	ExtendReal bool `json:"extend_real,omitempty"`
 	// MemoParser: the parser keeps what it has parsed and hands the same
 	// PreparedStatements value out again for the same query text (per connection)
 	MemoParser bool `json:"memo_parser,omitempty"`
